@@ -51,6 +51,10 @@ def _gen_once(r, force_2d):
     wd = W.make_world(r)
     period = [0.005, 0.01, 0.02, 0.05, 0.1][int(r.integers(5))]
     n = int(r.integers(3, 61))
+    long_history = r.random() < 0.12
+    if long_history:
+        n = int(r.integers(120, 330))
+        period = [0.005, 0.01, 0.02][int(r.integers(3))]
     origin = [0.0, 0.0, -_f(r.uniform(1, 50)), 4.0e5 + _f(r.uniform(0, 1000)),
               _f(r.uniform(0, 2000))][int(r.integers(5))]
     st = origin + period * np.arange(n + 1)
@@ -73,6 +77,8 @@ def _gen_once(r, force_2d):
         u = r.random()
         if u < 0.45:
             c = CHUNKS[int(r.integers(len(CHUNKS)))]
+            if long_history and r.random() < 0.6:
+                c = [100, 101, 128, 150, 200, -1][int(r.integers(6))]
             k = left if c < 0 else min(c, left)
             if c < 0 and r.random() < 0.5:
                 k = int(r.integers(0, left + 1))
@@ -91,14 +97,21 @@ def _gen_once(r, force_2d):
         elif u < 0.85:
             ops.append(['get_time'])
         else:
-            ops.append(['set_pva', _rand_pva(r, wd)])
+            v = r.random()
+            if v < 0.6:
+                ops.append(['set_pva', _rand_pva(r, wd)])
+            elif v < 0.85:
+                ops.append(['fix_position', [_f(x) for x in r.uniform(-3, 3, 5)]])
+            else:
+                ops.append(['set_pva_roundtrip'])
     if left > 0 and r.random() < 0.7:
         ops.append(['integrate', int(left)])
     sc = dict(format=1, kind='history', world=wd,
               imu=dict(type=['rate', 'increment'][int(r.integers(2))],
                        stamps=[float(x) for x in st]),
               perturb=perturb, initial=init,
-              knobs=dict(with_altitude=wa, initial_size=size), ops=ops)
+              knobs=dict(with_altitude=wa, initial_size=size,
+                         observe=bool(r.random() < 0.5)), ops=ops)
     try:
         m = materialise(sc)
         big = strapdown.Integrator(m['initial'], True).integrate(m['increments'])
@@ -153,7 +166,8 @@ class Model:
         if self.ref is None:
             with InitialSize(self.big):
                 it = strapdown.Integrator(self.seg_pva, self.wa)
-                self.ref = it.integrate(self.inc.iloc[self.seg_row:])
+                it.integrate(self.inc.iloc[self.seg_row:])
+                self.ref = it.trajectory
         return self.ref
 
     def expected_rows(self, a, b):
@@ -168,21 +182,30 @@ class Model:
             it = strapdown.Integrator(self.seg_pva, self.wa)
             if self.applied > self.seg_row:
                 it.integrate(self.inc.iloc[self.seg_row:self.applied])
-            return it.integrate(single_row_frame).iloc[-1]
+            it.integrate(single_row_frame)
+            return it.trajectory.iloc[-1]
 
 
 def execute(sc, want='C02'):
-    """Run the history; return (violations_c02, violations_c13, stats, digest)."""
+    """Run the history; return (violations_c02, violations_c13, stats, digest).
+
+    Two monitor modes (knob ``observe``): in *observing* mode the stored trajectory is
+    compared with the model after every operation; in *blind* mode the monitor looks at
+    nothing but the values the operations themselves return and at the trajectory once,
+    after the last operation - so that lazily maintained state is not healed by the
+    monitor's own reads.
+    """
     m = materialise(sc)
     inc = m['increments']
     n = len(inc)
     wa = bool(sc['knobs']['with_altitude'])
     size = int(sc['knobs']['initial_size'])
+    observe = bool(sc['knobs'].get('observe', True))
     v02, v13 = [], []
     log = []
     sig = []
     stats = dict(ops=0, grow=0, grow_in_predict=0, straddle=0, set_pva=0, predicts=0,
-                 empty_chunks=0, rows=0)
+                 empty_chunks=0, rows=0, keep_att=0, blind=int(not observe), long_chunk=0)
     init = m['initial']
     init_copy = init.copy()
     alt_ref = float(init['alt'])
@@ -196,63 +219,82 @@ def execute(sc, want='C02'):
             v02.append(V('arg-modified', "constructor modified its pva argument"))
         model = Model(inc, wa, max(10000, n + 16))
         model.start_segment(init_copy, 0)
+        # model of the stored trajectory: rows, times, and per-row VD alternatives
+        first = init_copy.to_numpy(dtype=float).copy()
+        vd_alt = {}
+        if not wa:
+            # C02 does not say how the stored initial row shows VD in 2-D mode (today the
+            # constructor zeroes it; whether it must is C13's business): allow both
+            vd_alt[0] = float(first[5])
+            first[5] = 0.0
+        rows = [first]
         t_index = [float(init.name)]
+
+        def row_ok(got, k):
+            want_row = rows[k]
+            if bits(np.asarray(got, dtype=float)) == bits(want_row):
+                return True
+            if k in vd_alt:
+                alt = want_row.copy()
+                alt[5] = vd_alt[k]
+                return bits(np.asarray(got, dtype=float)) == bits(alt)
+            return False
+
+        def traj_ok(tr):
+            if len(tr) != len(rows) or bits(tr.index) != bits(np.asarray(t_index)):
+                return "time index is not the start time followed by every applied " \
+                       "increment time once"
+            vals = tr.to_numpy()
+            for k in range(len(rows)):
+                if not row_ok(vals[k], k):
+                    return f"stored row {k} (t={t_index[k]!r}) differs from the model"
+            return None
+
         for op in sc['ops']:
             stats['ops'] += 1
             name = op[0]
             cap_before = len(it.lla)
             grow_before = shim.grow_events
-            traj_before = it.trajectory
-            tb_vals = bits(traj_before.to_numpy())
-            tb_idx = bits(traj_before.index)
+            held = len(rows)
             try:
                 if name == 'integrate':
                     k = min(int(op[1]), n - model.applied)
                     a, b = model.applied, model.applied + k
                     chunk = inc.iloc[a:b]
                     chunk_copy = chunk.copy()
-                    prev_last = it.trajectory.iloc[-1].copy()
-                    prev_len = len(it.trajectory)
                     ret = it.integrate(chunk)
                     model.applied = b
-                    t_index += [float(t) for t in inc.index[a:b]]
                     if k == 0:
                         stats['empty_chunks'] += 1
+                    if k >= 100:
+                        stats['long_chunk'] += 1
                     stats['rows'] += k
-                    if prev_len + k > cap_before >= prev_len:
-                        if k > 1 and prev_len < cap_before:
-                            stats['straddle'] += 1
+                    if held + k > cap_before > held and k > 1:
+                        stats['straddle'] += 1
                     log.append(ret)
                     if bits(chunk.to_numpy()) != bits(chunk_copy.to_numpy()):
                         v02.append(V('arg-modified', "integrate modified its increments"))
                     exp = model.expected_rows(a, b)
+                    exp_vals = exp.to_numpy()
                     if len(ret) != k + 1:
                         v02.append(V('chunk-return', f"integrate({k} rows) returned "
-                                                     f"{len(ret)} rows, expected {k + 1}"))
+                                                     f"{len(ret)} rows, expected {k + 1} "
+                                                     f"(previous last row + appended)"))
                     else:
-                        if _row_bits(ret.iloc[0]) != _row_bits(prev_last) or \
-                                float(ret.index[0]) != float(prev_last.name):
+                        if not row_ok(ret.iloc[0].to_numpy(), held - 1) or \
+                                float(ret.index[0]) != t_index[-1]:
                             v02.append(V('chunk-return',
                                          "integrate's first returned row is not the "
                                          "previous last row"))
-                        if bits(ret.iloc[1:].to_numpy()) != bits(exp.to_numpy()) or \
+                        if bits(ret.iloc[1:].to_numpy()) != bits(exp_vals) or \
                                 bits(ret.index[1:]) != bits(exp.index):
                             j = _first_diff(ret.iloc[1:], exp)
                             v02.append(V('appended-rows',
                                          f"row {j} appended by integrate(chunk {a}:{b}) "
                                          f"differs from single-shot integration "
-                                         f"(capacity {cap_before}, rows held {prev_len})"))
-                    tr = it.trajectory
-                    if len(tr) != prev_len + k:
-                        v02.append(V('time-index', f"trajectory has {len(tr)} rows after "
-                                                   f"appending {k} to {prev_len}"))
-                    elif bits(tr.iloc[:prev_len].to_numpy()) != tb_vals or \
-                            bits(tr.index[:prev_len]) != tb_idx:
-                        v02.append(V('history-rewritten',
-                                     "integrate changed earlier trajectory rows"))
-                    elif bits(tr.iloc[prev_len:].to_numpy()) != bits(exp.to_numpy()):
-                        v02.append(V('appended-rows', "trajectory tail differs from "
-                                                      "single-shot integration"))
+                                         f"(capacity {cap_before}, rows held {held})"))
+                    rows.extend(exp_vals[j].copy() for j in range(k))
+                    t_index += [float(t) for t in inc.index[a:b]]
                     if not wa:
                         _check_2d(ret.iloc[1:], alt_ref, v13, f"integrate({a}:{b})")
                 elif name in ('predict', 'predict_scaled'):
@@ -277,12 +319,7 @@ def execute(sc, want='C02'):
                                      f"predict(increment {model.applied}"
                                      f"{'' if name == 'predict' else ' scaled'}) differs "
                                      f"from the row integrate appends "
-                                     f"(capacity {cap_before}, rows held "
-                                     f"{len(traj_before)})"))
-                    tr = it.trajectory
-                    if bits(tr.to_numpy()) != tb_vals or bits(tr.index) != tb_idx:
-                        v02.append(V('predict-side-effect',
-                                     "predict changed the stored trajectory"))
+                                     f"(capacity {cap_before}, rows held {held})"))
                     if shim.grow_events > grow_before:
                         stats['grow_in_predict'] += 1
                     if not wa:
@@ -291,9 +328,7 @@ def execute(sc, want='C02'):
                 elif name == 'get_pva':
                     ret = it.get_pva()
                     log.append(ret)
-                    want_row = traj_before.iloc[-1]
-                    if _row_bits(ret) != _row_bits(want_row) or \
-                            float(ret.name) != t_index[-1]:
+                    if not row_ok(ret.to_numpy(), held - 1) or float(ret.name) != t_index[-1]:
                         v02.append(V('get', "get_pva is not the last trajectory row"))
                 elif name == 'get_time':
                     ret = it.get_time()
@@ -301,34 +336,48 @@ def execute(sc, want='C02'):
                     if float(ret) != t_index[-1]:
                         v02.append(V('get', f"get_time()={float(ret)!r}, expected "
                                             f"{t_index[-1]!r}"))
-                elif name == 'set_pva':
+                elif name in ('set_pva', 'fix_position', 'set_pva_roundtrip'):
                     stats['set_pva'] += 1
                     t = t_index[-1]
-                    p = _pva_series(op[1], t)
+                    if name == 'set_pva':
+                        p = _pva_series(op[1], t)
+                    else:
+                        # a user reads the state, edits position/velocity only and writes
+                        # it back: the supplied angles are exactly the held ones
+                        stats['keep_att'] += 1
+                        p = it.get_pva().copy()
+                        if not row_ok(p.to_numpy(), held - 1):
+                            v02.append(V('get', "get_pva is not the last trajectory row"))
+                        if name == 'fix_position':
+                            d = np.asarray(op[1], dtype=float)
+                            p.iloc[0] += d[0] * 1e-5
+                            p.iloc[1] += d[1] * 1e-5
+                            p.iloc[2] += d[2]
+                            p.iloc[3] += d[3]
+                            p.iloc[4] += d[4]
+                        p.name = t
                     p_copy = p.copy()
-                    prev_len = len(it.trajectory)
                     it.set_pva(p)
                     if _row_bits(p) != _row_bits(p_copy):
                         v02.append(V('arg-modified', "set_pva modified its argument"))
-                    tr = it.trajectory
-                    back = tr.iloc[-1].to_numpy().copy()
-                    supplied = p_copy.to_numpy().copy()
+                    rows[-1] = p_copy.to_numpy(dtype=float).copy()
                     if not wa:
                         # the property speaks about the continuation, not this entry
-                        if back[5] == 0.0:
-                            supplied[5] = 0.0
-                    if len(tr) != prev_len or bits(back) != bits(supplied) or \
-                            float(tr.index[-1]) != t:
-                        v02.append(V('set-readback',
-                                     "after set_pva the last row does not read back as "
-                                     "supplied"))
-                    if prev_len > 1 and (bits(tr.iloc[:-1].to_numpy()) !=
-                                         bits(traj_before.iloc[:-1].to_numpy())):
-                        v02.append(V('history-rewritten', "set_pva changed earlier rows"))
+                        vd_alt[held - 1] = 0.0
+                    else:
+                        vd_alt.pop(held - 1, None)
                     model.start_segment(p_copy, model.applied)
                     alt_ref = float(p_copy['alt'])
                 else:
                     raise ValueError(name)
+                if observe and not v02:
+                    problem = traj_ok(it.trajectory)
+                    if problem:
+                        cls = {'integrate': 'appended-rows', 'predict': 'predict-side-effect',
+                               'predict_scaled': 'predict-side-effect'}.get(
+                            name, 'set-readback' if 'set' in name or name == 'fix_position'
+                            else 'history-rewritten')
+                        v02.append(V(cls, f"after {name}: {problem}"))
             except KernelBoundsViolation as e:
                 v02.append(V('kernel-bounds', f"{name}: {e}"))
                 break
@@ -342,21 +391,28 @@ def execute(sc, want='C02'):
             csize = ''
             if name == 'integrate':
                 kk = int(op[1])
-                csize = '0' if kk == 0 else '1' if kk == 1 else 's' if kk <= 5 else 'L'
-            sig.append(f"{name[0] if name != 'predict_scaled' else 'q'}{csize}"
-                       f"{'^' if grew else ''}")
+                csize = '0' if kk == 0 else '1' if kk == 1 else 's' if kk <= 5 else \
+                    'L' if kk < 100 else 'X'
+            code = {'integrate': 'i', 'predict': 'p', 'predict_scaled': 'q', 'get_pva': 'g',
+                    'get_time': 't', 'set_pva': 's', 'fix_position': 'f',
+                    'set_pva_roundtrip': 'r'}[name]
+            sig.append(f"{code}{csize}{'^' if grew else ''}")
             if v02 and want == 'C02':
                 break
             if v13 and want == 'C13':
                 break
         else:
-            # final clause: time index = start followed by every increment time once
-            tr = it.trajectory
-            if bits(tr.index) != bits(np.asarray(t_index)):
-                v02.append(V('time-index', "trajectory index is not the start time "
-                                           "followed by every applied increment time once"))
+            # final observation: the stored trajectory as a whole
+            problem = traj_ok(it.trajectory)
+            if problem:
+                v02.append(V('time-index' if 'time index' in problem else 'appended-rows',
+                             f"final trajectory: {problem}"))
+            gt = it.get_time()
+            if float(gt) != t_index[-1]:
+                v02.append(V('get', f"final get_time()={float(gt)!r}, expected "
+                                    f"{t_index[-1]!r}"))
         stats['kernel_calls'] = shim.calls
-    head = f"{'3d' if wa else '2d'}|cap{size}|"
+    head = f"{'3d' if wa else '2d'}|cap{size}|{'obs' if observe else 'blind'}|"
     return v02, v13, dict(stats, sig=head + ''.join(sig)), digest(log)
 
 
